@@ -2738,4 +2738,140 @@ theorem verifyDSWork_verdict (g : Gov) (dss : List DSRec)
   exact exists_sortDedup dsIdent dsLt _ (fun a b hab => by simp only [hds a b hab]) _
 end
 
+/-! ### the error VerifyRRSIG surfaces -/
+
+theorem verr_ok_iff (v : Verdict) : verr v = VErr.ok ↔ v = Verdict.ok := by cases v <;> simp [verr]
+
+theorem candErr_ok (cvv : VKey → Verdict) : ∀ (l : List VKey) (last : VErr), last ≠ VErr.ok →
+    (candErr cvv l last = VErr.ok ↔ ∃ k ∈ l, cvv k = Verdict.ok) := by
+  intro l
+  induction l with
+  | nil => intro last h; simp [candErr, h]
+  | cons k t ih =>
+    intro last h
+    unfold candErr
+    by_cases hk : cvv k = Verdict.ok
+    · simp [hk]
+    · have hb : (cvv k == Verdict.ok) = false := by simpa using hk
+      simp only [hb, Bool.false_eq_true, if_false]
+      rw [ih _ (fun e => hk ((verr_ok_iff _).mp e))]
+      simp [hk]
+
+theorem sigErr_ok (one : VSig → VErr) : ∀ (l : List VSig) (last : VErr), last ≠ VErr.ok →
+    (sigErr one l last = VErr.ok ↔ ∃ s ∈ l, one s = VErr.ok) := by
+  intro l
+  induction l with
+  | nil => intro last h; simp [sigErr, h]
+  | cons s t ih =>
+    intro last h
+    unfold sigErr
+    by_cases hs : one s = VErr.ok
+    · simp [hs]
+    · have hb : (one s == VErr.ok) = false := by simpa using hs
+      simp only [hb, Bool.false_eq_true, if_false]
+      rw [ih _ hs]
+      simp [hs]
+
+theorem groupErr_ok (per : (Bytes × Nat × Nat) → VErr) : ∀ (l : List (Bytes × Nat × Nat)),
+    groupErr per l = VErr.ok ↔ ∀ k ∈ l, per k = VErr.ok := by
+  intro l
+  induction l with
+  | nil => simp [groupErr]
+  | cons k t ih =>
+    unfold groupErr
+    by_cases hk : per k = VErr.ok
+    · simp [hk, ih]
+    · have hb : (per k == VErr.ok) = false := by simpa using hk
+      simp [hb, hk]
+
+section
+variable (cv : VKey → VSig → List VRec → Verdict) (inPeriod : VSig → Bool) (supAlg : Nat → Bool) (tagOf : VKey → Nat)
+  (keys : List VKey)
+
+theorem oneSigErr_ok (set : List VRec) (sig : VSig)
+    (hcv : ∀ k k', keyIdent k = keyIdent k' → cv k sig set = cv k' sig set) :
+    oneSigErr cv inPeriod supAlg tagOf keys set sig = VErr.ok ↔ verifyOneSig cv inPeriod supAlg tagOf keys set sig = true := by
+  unfold oneSigErr verifyOneSig
+  simp only
+  split
+  · simp
+  · split
+    · simp
+    · split
+      · simp
+      · split
+        · simp
+        · split
+          · simp
+          · rw [candErr_ok _ _ _ (by simp), List.any_eq_true]
+            have := exists_uniqueSortedKeys (fun k => cv k sig set = Verdict.ok)
+              (fun a b hab => by simp only [hcv a b hab])
+              ((keys.filter (fun k => tagOf k == sig.tag)).filter (usableSignatureCandidate tagOf sig))
+            rw [this]
+            constructor
+            · rintro ⟨k, hk, hv⟩; exact ⟨k, hk, by simp [hv]⟩
+            · rintro ⟨k, hk, hv⟩; exact ⟨k, hk, by simpa using hv⟩
+
+/-- **the error is nil exactly when `VerifyRRSIG` accepts.** -/
+theorem verifyRRSIGErr_ok (zone : Bytes) (m : VMsg)
+    (hcv : ∀ k k' sig set, keyIdent k = keyIdent k' → cv k sig set = cv k' sig set)
+    (hsig : ∀ s s' set, sigIdent s = sigIdent s' →
+      verifyOneSig cv inPeriod supAlg tagOf keys set s = verifyOneSig cv inPeriod supAlg tagOf keys set s') :
+    verifyRRSIGErr cv inPeriod supAlg tagOf keys zone m = VErr.ok ↔
+      verifyRRSIG (verifyOneSig cv inPeriod supAlg tagOf keys) keys.length zone m = true := by
+  unfold verifyRRSIGErr verifyRRSIG
+  simp only
+  split
+  · simp
+  · split
+    · simp
+    · split
+      · simp
+      · split
+        · simp
+        · generalize lower (fqdn zone) = z
+          rw [groupErr_ok, List.all_eq_true]
+          have key : ∀ k : Bytes × Nat × Nat,
+              ((if ((m.sigs.filter (fun s => nameInZone (lower s.name) z)).filter (fun s => sigKey s == k)).isEmpty = true then VErr.missingSigned
+                else if (!isRRset (hdrsOf ((collected z m).filter (fun x => rrKey x == k)))) = true then VErr.missingSigned
+                else sigErr (oneSigErr cv inPeriod supAlg tagOf keys ((collected z m).filter (fun x => rrKey x == k)))
+                  (uniqueSortedSigs ((m.sigs.filter (fun s => nameInZone (lower s.name) z)).filter (fun s => sigKey s == k)))
+                  VErr.missingSigned) = VErr.ok) ↔
+              ((!((m.sigs.filter (fun s => nameInZone (lower s.name) z)).filter (fun s => sigKey s == k)).isEmpty
+                && isRRset (hdrsOf ((collected z m).filter (fun x => rrKey x == k)))
+                && ((m.sigs.filter (fun s => nameInZone (lower s.name) z)).filter (fun s => sigKey s == k)).any
+                  (fun s => verifyOneSig cv inPeriod supAlg tagOf keys ((collected z m).filter (fun x => rrKey x == k)) s)) = true) := by
+            intro k
+            generalize ((m.sigs.filter (fun s => nameInZone (lower s.name) z)).filter (fun s => sigKey s == k)) = sl
+            generalize ((collected z m).filter (fun x => rrKey x == k)) = set
+            by_cases he : sl.isEmpty = true
+            · simp [he]
+            · have he' : sl.isEmpty = false := by simpa using he
+              by_cases hrr : isRRset (hdrsOf set) = true
+              · simp only [he', hrr, Bool.false_eq_true, if_false, Bool.not_true, Bool.not_false, Bool.true_and, List.any_eq_true]
+                rw [sigErr_ok _ _ _ (by simp)]
+                unfold uniqueSortedSigs
+                rw [exists_sortDedup sigIdent sigLt (fun s => oneSigErr cv inPeriod supAlg tagOf keys set s = VErr.ok)
+                  (fun a b hab => by
+                    rw [oneSigErr_ok cv inPeriod supAlg tagOf keys set a (fun k k' h => hcv k k' a set h),
+                      oneSigErr_ok cv inPeriod supAlg tagOf keys set b (fun k k' h => hcv k k' b set h), hsig a b set hab])]
+                constructor
+                · rintro ⟨s, hs, hv⟩
+                  exact ⟨s, hs, (oneSigErr_ok cv inPeriod supAlg tagOf keys set s (fun k k' h => hcv k k' s set h)).mp hv⟩
+                · rintro ⟨s, hs, hv⟩
+                  exact ⟨s, hs, (oneSigErr_ok cv inPeriod supAlg tagOf keys set s (fun k k' h => hcv k k' s set h)).mpr hv⟩
+              · have hrr' : isRRset (hdrsOf set) = false := by simpa using hrr
+                simp [he', hrr']
+          constructor
+          · intro hall r hr
+            have := hall (rrKey r) ((mem_sortBy _ _ _).mpr (by
+              obtain ⟨y, hy, hky⟩ := dedupBy_covers id ((collected z m).map rrKey) [] (rrKey r) (List.mem_map.mpr ⟨r, hr, rfl⟩) (by simp)
+              simp only [id] at hky; rw [← hky]; exact hy))
+            exact (key (rrKey r)).mp this
+          · intro hall k hk
+            have hk' := dedupBy_sub id _ [] k ((mem_sortBy _ _ _).mp hk)
+            obtain ⟨r, hr, rfl⟩ := List.mem_map.mp hk'
+            exact (key (rrKey r)).mpr (hall r hr)
+end
+
 end SdnsVerif.Lemmas.DnssecPrim
